@@ -54,14 +54,15 @@ Definition check_case (c : case) : list N :=
   | CScen L tmask vs is pool h obs =>
       let ev := events_of pool h in
       let m := model L tmask vs is ev in
+      let runs := stream_runs L tmask vs is ev in     (* the required reports, computed once *)
       let stale := negb (obs_eqb m obs) && obs_eqb_gen true m obs in
       (if obs_eqb m obs then [] else if stale then [V_KNOWN 2] else [V_MISMATCH]) ++
-      (if spec_ok L tmask vs is ev obs && obs_at_most_b L obs then
-         if pipeline_presum_ok L tmask vs is ev then []
+      (if runs_ok false runs ev obs && obs_at_most_b L obs then
+         if runs_presum_ok runs then []
          else if 1 <=? L then [V_KNOWN 1] else [V_SPECFAIL]
-       else if stale && spec_ok_gen true L tmask vs is ev obs && obs_at_most_b L obs then []
+       else if stale && runs_ok true runs ev obs && obs_at_most_b L obs then []
        else [V_SPECFAIL]) ++
-      flag (spec_ok L tmask vs is ev m && obs_at_most_b L m) V_MODELSPEC
+      flag (runs_ok false runs ev m && obs_at_most_b L m) V_MODELSPEC
   end.
 
 Definition run (cs : list case) : list (N * N) := index_from 0 check_case cs.
